@@ -146,7 +146,9 @@ V_ExtSer(e) ==               \* e.inp = [node, version, kind]
   LET n == InNode(e, e.inp.node)
       pay == IF e.inp.kind = "prv" THEN SerPrv(n, e.inp.version) ELSE SerPub(n, e.inp.version)
       want == EncCheck(pay, Hash256(e, pay))
-  IN IF Raised(e) THEN "extser-raised"
+      hdrOk == n.depth # 0 \/ (IsZero(n.pfp) /\ IsZero(n.idx))
+  IN IF Raised(e) /\ ~hdrOk THEN "ok"          \* a node BIP32 does not allow (depth 0, non-zero header): may be refused
+     ELSE IF Raised(e) THEN "extser-raised"
      ELSE IF Len(e.res.v) # 111 THEN "extser-not-111-characters"
      ELSE IF e.res.v # want
           THEN \* second direction: decode what was emitted and name the differing field
@@ -175,7 +177,11 @@ V_ExtParse(e) ==
      LET q == ParsePayload(body.body, e.inp.asPrv, e.inp.net)
          keyOk == IF e.inp.asPrv THEN q.keydata[1] = 0 /\ ValidScalar32(Drop(q.keydata, 1))
                   ELSE SecShape(q.keydata) /\ SecNorm(e, q.keydata) # <<>>
+         \* BIP32 (test vector 5): a key at depth 0 has zero parent fingerprint and zero child number; a payload
+         \* violating that is not "valid per BIP32" - a parser may refuse it (if it accepts it, the rest applies)
+         hdrOk == q.depth # 0 \/ (IsZero(q.pfp) /\ IsZero(q.idx))
      IN IF ~keyOk THEN "ok"        \* not a valid BIP32 payload: outside C07's domain
+        ELSE IF Raised(e) /\ ~hdrOk THEN "ok"
         ELSE IF Raised(e) THEN "extparse-raised-on-valid"
         ELSE LET want == IF e.inp.asPrv
                          THEN K32!PrvNode(e, Drop(q.keydata, 1), q.c, q.depth, q.idx, q.pfp, q.net)
@@ -199,7 +205,9 @@ V_Import(e) ==
              ELSE LET q == ParsePayload(body.body, k.prv, k.net)
                       keyOk == IF k.prv THEN q.keydata[1] = 0 /\ ValidScalar32(Drop(q.keydata, 1))
                                ELSE SecShape(q.keydata) /\ SecNorm(e, q.keydata) # <<>>
+                      hdrOk == q.depth # 0 \/ (IsZero(q.pfp) /\ IsZero(q.idx))
                   IN IF ~keyOk THEN "ok"
+                     ELSE IF Raised(e) /\ ~hdrOk THEN "ok"
                      ELSE IF Raised(e) THEN "import-raised-on-valid"
                      ELSE IF e.res.v.net # k.net THEN "import-network-not-from-version"
                      ELSE IF e.res.v.watch_only # ~k.prv THEN "import-key-type-not-from-version"
